@@ -12,13 +12,13 @@ META = {
         "Static decision of the structural clauses of C03 on MIR: (R03.1) call-graph who-may-call rule - the function that "
         "writes the closed sentinel into `version` is called only from the Drop impls of Observable and SharedObservable; "
         "(R03.2) the last-owner decision in SharedObservable's Drop is produced by an atomic release of the owner counter "
-        "(Arc::into_inner/try_unwrap success edge dominates the close call, close post-dominates that edge, no "
+        "(Arc::into_inner success edge dominates the close call, close post-dominates that edge, no "
         "strong_count/weak_count load feeds the branch) - the schedule-dependent clause, decided without running a thread; "
         "(R03.3) Observable's Drop reaches close on every path; (R03.4) into_shared consumes `this` by mem::forget on every "
         "path and never drops it (drop-elaborated MIR); (R03.5) WeakObservable::upgrade rebuilds the handle from upgrades of "
         "the family's own counters; (R03.6) the poll leaf answers None exactly on the closed sentinel and never parks a waker "
         "then. Decides these necessary conditions, not the behaviour."),
-    "trusted_base": ["rustc MIR construction and drop elaboration", "std::sync::Arc::{into_inner,try_unwrap} hand the value to exactly one racing releaser",
+    "trusted_base": ["rustc MIR construction and drop elaboration", "std::sync::Arc::into_inner hands the value to exactly one racing releaser",
                      "std::sync::Weak::upgrade fails once the strong count reached zero", "std::sync::RwLock"],
     "assumptions": ["user Drop impls of T do not call back into the same observable"],
 }
@@ -88,6 +88,13 @@ def run(ctx):
         c02.r02_3(ctx, wakes[0])
         c02.r02_4(ctx, wakes[0])
         c02.r02_5(ctx, wakes[0])
+    # "the last owner": every owner handle releases its share of the owner counter exactly once, and the fields of a live
+    # handle are never replaced (an overwritten handle never releases its share, so nobody is ever "last")
+    from . import c19
+    counter = owner_counter_field(F)
+    if counter is not None:
+        c19.r19_6(ctx, counter)
+        c19.r19_7(ctx, counter)
 
 
 def owner_counter_field(F):
@@ -109,7 +116,10 @@ def check_shared_drop(ctx, cf, b, close_calls):
     if not close_calls:
         ctx.violated("R03.2", cf, "shared-drop-closes", cf.loc(), "SharedObservable's Drop never calls close: the stream cannot end")
         return
-    ATOMIC = r"^std::sync::Arc::<.*>::(into_inner|try_unwrap)$"
+    ATOMIC = r"^std::sync::Arc::<.*>::into_inner$"
+    # Arc::try_unwrap is NOT such a test: of two threads releasing the last two references at the same time both can fail
+    # (each still sees the other's reference) and both then drop their Arc - std's documentation of Arc::into_inner says so
+    RACY = r"^std::sync::Arc::<.*>::try_unwrap$"
     # plain inspections of the reference counts (no release): strong_count / weak_count loads, and get_mut / is_unique,
     # which additionally fail while Weak references exist (every WeakObservable holds one on the owner counter)
     COUNT = r"^std::sync::(Arc|Weak)::<.*>::(strong_count|weak_count|get_mut|is_unique|make_mut)$"
@@ -124,6 +134,13 @@ def check_shared_drop(ctx, cf, b, close_calls):
             ctx.violated("R03.2", cf, "decision=count-load", b.line_at((s, 10 ** 6)),
                          "the branch guarding close (edge bb%d->bb%d) depends on a plain inspection of the reference count, `%s`: check-then-act on a shared count - "
                          "two last clones dropped concurrently can both see 2 and neither closes; Arc::get_mut/is_unique also fail while a WeakObservable exists" % (s, tt, fmt_fact(f)))
+            continue
+        racy = [(s, tt, f) for s, tt, f in facts if contains_in_fact(f, lambda x: x[0] == "call" and ecall_matches(x, RACY))]
+        if racy:
+            s, tt, f = racy[0]
+            ctx.violated("R03.2", cf, "decision=try_unwrap", b.line_at((s, 10 ** 6)),
+                         "the branch guarding close depends on `Arc::try_unwrap`: when the last two clones are dropped at the same time on two threads both calls can fail "
+                         "(each sees the other's reference), both handles then just release theirs and nobody closes - only Arc::into_inner guarantees that exactly one releaser gets the value")
             continue
         # (i) success edge of an atomic last-reference test on the owner counter dominates close
         ok_edge = None
